@@ -101,6 +101,27 @@ def deep_chain(depth, with_missing):
     return objs, lines, []
 
 
+# programs with a hand-derived answer (the search order applied by hand); also compared with PanCore
+EXPECT = [
+    ("descendant_of_int_value", "d := 7.bear({q: 5, tag: 1})\n[d['q], d.q, d['tag], d['nope], d.which('q)['tag], d.proto].p\n", "[5, 5, 1, nil, 1, 7]\n"),
+    ("descendant_of_arr_value", "e := [1, 2].bear({len: 'shadow, q: 3})\n[e['len], e.len, e['q], e.q].p\n", '["shadow", "shadow", 3, 3]\n'),
+    ("descendant_of_str_value", 's := "ab".bear({q: 5, uc: \'mine})\n[s[\'q], s.q, s[\'uc], s.uc].p\n', '[5, 5, "mine", "mine"]\n'),
+    ("typed_descendant", "i2 := Int.bear({q: 6}).new(3)\n[i2['q], i2.q, i2 + 1].p\n", "[6, 6, 4]\n"),
+    ("missing_in_list_chain",
+     "a := {tag: 1, _missing: {|self, name, x, y, z| [self.tag, name, x, y, z, \\0.len]}}\n"
+     "b := {tag: 2, _missing: {|self, name, x, y, z| [self.tag, name, x, y, z, \\0.len]}}\n"
+     'c := {tag: 3, foo: {|self, x, y, z| ["own", self.tag, x, y, z, \\0.len]}}\n'
+     "[a, b]@foo(1, 2, 3).p\n[a, c, b]@foo(1, 2, 3).p\n[a, b, c]=@foo(1, 2, 3).p\n[a, b]@foo(1, 2, 3, 4, 5).p\n[a, b]@foo(1).p\n",
+     '[[1, "foo", 1, 2, 3, 5], [2, "foo", 1, 2, 3, 5]]\n[[1, "foo", 1, 2, 3, 5], ["own", 3, 1, 2, 3, 4], [2, "foo", 1, 2, 3, 5]]\n'
+     '[[1, "foo", 1, 2, 3, 5], [2, "foo", 1, 2, 3, 5], ["own", 3, 1, 2, 3, 4]]\n[[1, "foo", 1, 2, 3, 7], [2, "foo", 1, 2, 3, 7]]\n'
+     '[[1, "foo", 1, nil, nil, 5], [2, "foo", 1, nil, nil, 5]]\n'),
+    ("missing_gets_private_and_kwargs",
+     "k := {tag: 4, _missing: {|self, name, x, k: 0| [self.tag, name, x, k]}}\nchild := k.bear({tag: 5})\n"
+     "child._foo(1, k: 2).p\nchild._foo.p\nchild.zz(1, k: 2).p\nchild['_foo].p\n{_p: 1}._p.p\n",
+     '[5, "_foo", 1, 2]\n[5, "_foo", nil, 0]\n[5, "zz", 1, 2]\nnil\n1\n'),
+]
+
+
 def queries(rng, objs, only=None):
     qs = []   # (query source, expected print or ('err', kind, msg))
     for o in (only if only is not None else objs):
@@ -169,6 +190,11 @@ def main(chk):
         forests.append(gen_forest(rng, rng.randint(2, 8)))
     progs, meta = [], []
     preludes = []
+    expect_at = {}
+    for name, prog, exp in EXPECT:
+        expect_at[len(progs)] = (name, exp)
+        progs.append(prog)
+        meta.append(("expect:" + name, exp))
     for depth in (15, 17, 33):
         objs, lines, _ = deep_chain(depth, depth % 2 == 0)
         forests.append((objs, lines, [objs[-1], objs[len(objs) // 2]]))
@@ -188,7 +214,9 @@ def main(chk):
         hist[fam] = hist.get(fam, 0) + 1
         chk.count(prog, True)
         imp = r["impl"]
-        if isinstance(exp, tuple):
+        if q.startswith("expect:"):
+            good = imp["kind"] == "value" and imp.get("out") == exp
+        elif isinstance(exp, tuple):
             good = imp["kind"] == "error" and imp.get("errk") == exp[1] and imp.get("errmsg") == exp[2]
         else:
             good = imp["kind"] == "value" and imp.get("repr") == exp
@@ -201,11 +229,11 @@ def main(chk):
             model_only.append(r)
     chk.cov["input_distribution"] = hist
     chk.cov["forests"] = len(forests)
-    chk.cov["rule"] = ("prototype forests of 2-8 objects built by object literals, bear, bro, BaseObj.bear, and bear/bro whose source object is kept in a variable and queried afterwards as a plain child of Obj; chains of 15/17/33 bear levels below a literal root queried at the leaf and in the middle; over a pool of 5 names (so shadowing "
+    chk.cov["rule"] = ("%d programs with hand-derived answers (descendants of Int / Arr / Str VALUES indexed by symbol and called, `_missing` through list chains with 1 / 3 / 5 arguments, `_missing` for private names and with keyword arguments); prototype forests of 2-8 objects built by object literals, bear, bro, BaseObj.bear, and bear/bro whose source object is kept in a variable and queried afterwards as a plain child of Obj; chains of 15/17/33 bear levels below a literal root queried at the leaf and in the middle; over a pool of 5 names (so shadowing "
                        "is constant), property kinds value / function / _missing, a unique own `tag` per object; for every object: o.n and o.n(arg) "
                        "for present / inherited / shadowed / absent names, o['n], which, keys, ancestors, proto, kindOf?, names that live only on "
                        "Obj / BaseObj (does the search reach the last link; children of BaseObj must NOT see Obj's properties). Oracle: a forest "
-                       "model (first owner along the chain, then first _missing with the name first, then NoPropErr) and PanCore.")
+                       "model (first owner along the chain, then first _missing with the name first, then NoPropErr) and PanCore." % len(EXPECT))
     for i in (0, len(progs) // 2, len(progs) - 1):
         chk.sample({"program": progs[i], "expected": meta[i][1], "impl": {k: res[i]["impl"].get(k) for k in ("kind", "repr", "errk")},
                     "model_verdict": res[i]["verdict"]})
